@@ -44,7 +44,7 @@ func c11HistCase(tier string, seed int64, idx int, scratch string) rt.CaseResult
 			W: map[string]int{"set": 20, "setreader": 12, "create": 12, "delete": 8, "get": 8, "getreader": 8, "getkeys": 5, "emptykey": 6}}
 	case "tx":
 		p = seqrun.Profile{Steps: tierN(tier, 40, 80), Keys: txKeys[:3], Lens: []int{16, 3000}, MaxOpen: 4, TxBias: 60,
-			W: map[string]int{"begin": 12, "set": 26, "delete": 8, "get": 4, "getkeys": 3, "commit": 10, "rollback": 5, "collect": 3, "setreader": 4, "create": 4, "emptykey": 2}}
+			W: map[string]int{"begin": 12, "set": 26, "delete": 8, "get": 4, "getkeys": 3, "commit": 10, "rollback": 5, "collect": 3, "setreader": 4, "create": 4, "emptykey": 2, "faultwrite": 2}}
 	case "commit":
 		p = seqrun.Profile{Steps: tierN(tier, 36, 70), Keys: txKeys[:3], Lens: []int{12}, MaxOpen: 4, TxBias: 70, Levels: []int{2, 3, 1},
 			W: map[string]int{"begin": 14, "set": 30, "delete": 8, "commit": 16, "rollback": 6}}
